@@ -46,6 +46,14 @@ How the obligations are read off the facts (so that they hold for every spelling
     guard holds the name given to docker run" evaluate those terms on the literal that constructs the guard (eval_term).
   * "the identifier has n random characters" counts draws of `repeat_with(..).take(n)` / a literal range, or of a counted
     `for` loop over a literal range that pushes one drawn character per iteration (C16_helpers.pushed_draws).
+  * "a word vector handed to `args`" is followed to the frame that owns the vector (C16_helpers._vec_home): the conversion
+    may collect the words with push / extend and hand the Vec (or `&mut` of it) to a private assembler that calls
+    `Command::new(..).args(vec)`; frames the vector passes through must not modify it (retain / truncate / sort make the
+    model `disturbed`: removal shapes fail, `--rm` / pack names become UNPROVEN).
+  * "build_internal owns the temp dirs" is ownership across the test closure (C16_helpers.owned_across): a place whose
+    type owns a TempDir / an AppDir by value (local, tuple, Option / Box, private carrier struct returned by a preparation
+    phase: owns_deep) is assigned before the call that hands the TestContext to the closure and dropped by the frame both
+    after the call returned and on its unwind path — a carrier bound to `_` or an explicit drop before the closure fails.
   * "the guard exists before `docker run`" is judged in the frame that issues the command (C16_helpers.guard_frames):
     start_container, or the private function that makes the guard, runs the command and hands the guard back by value;
     the unwind drop is required in every frame that issues a command while owning the guard.
@@ -56,8 +64,8 @@ from .lib.effects import Effects, vocab_lookup
 from .lib.mir import fmt_place
 from .lib.paths import strip
 from .lib.value import vstr, walk, canon
-from .C16_helpers import construction_sites, guard_frames, held, owning_fields, param_fields, top_call
-from .C16_helpers import GUARD, guard_term, eval_term, term_label
+from .C16_helpers import construction_sites, guard_frames, held, owning_fields, param_fields, top_call, owns_deep, owned_across
+from .C16_helpers import GUARD, guard_term, eval_term, term_label, disturbed
 from .lib import iters
 from .C16_helpers import (argv_model, pushed_draws, ctor_field_params, divergence_points, word_conditions, guard_mutations, literal_sites, params_in, result_fate_levels, sets_param, tempdir_path)
 
@@ -105,7 +113,7 @@ def run(ctx, rep):
         consts = [e[1] for it in items for e in it.elems if e[0] == 'const']
         fields = [e[1] for it in items for e in it.elems if e[0] == 'field']
         force = [it for it in items if it.elems == [('const', '--force')]]
-        ok = program == 'docker' and consts[:len(sub)] == sub and fields == [field] and len(force) == 1 and force[0].conds == [('force', True)] and force[0].loop is None
+        ok = program == 'docker' and consts[:len(sub)] == sub and fields == [field] and len(force) == 1 and force[0].conds == [('force', True)] and force[0].loop is None and not disturbed(m)
         nf = prog.fns.get(ty + '::new')
         if nf is None:
             return False, 'constructor not found'
@@ -224,12 +232,14 @@ def run(ctx, rep):
     spawns = [e for e in bi_may if e.kind == 'RUN']
     # the test closure (a parameter of build_internal) is called with a TestContext whose docker_resources is the guard
     handed = []
+    cb_calls = []       # where build_internal hands the TestContext to the test closure
     for e in bi_may:
         if e.kind != 'CALLBACK' or e.path is None or strip(e.path)[0] != 'param' or strip(e.path)[1] != bi.path:
             continue
         for a in (e.args or ())[1:]:
             tcv = next((x for x in walk(sl.inline_deep(a)) if x[0] == 'agg' and (x[1] or '').endswith('TestContext')), None)
             if tcv is not None:
+                cb_calls.append(top_call(e))
                 handed.append(dict(tcv[3]).get('docker_resources', ('unknown',)))
     ok = bool(handed) and all(is_guard(v) for v in handed)
     rep.check(ok and bool(spawns), 'R2', 'resources/moved-into-context', w(bi), 'the same guard is moved into the TestContext handed to the test closure', 'the guard is not moved into the TestContext')
@@ -317,8 +327,20 @@ def run(ctx, rep):
             ok = ok and a1[0] == 'field' and a1[2] == 'docker_resources' and is_guard(a1[1], rb, 0)
     rep.check(ok, 'R4', 'rebuild', w(rb), 'rebuild consumes self and forwards the same guard', 'rebuild does not forward its own guard by value')
     # ---- R5 --------------------------------------------------------------------------------------------
+    # the buildpack output dir (a TempDir) and the app copy (an AppDir) are owned by build_internal's frame while the test
+    # closure runs and released by it afterwards, on return and on unwind — as two locals, or inside a private carrier
+    # struct / tuple that a preparation phase hands back by value (ownership judged on the types of the dropped places)
     tys = [l['ty'] for l in bi.locals]
-    rep.check('tempfile::TempDir' in tys and 'libcnb_test::app::AppDir' in tys, 'R5', 'locals', w(bi), 'build_internal owns a TempDir (buildpacks) and an AppDir', 'temp dir locals: %s' % [t for t in tys if 'Temp' in t or 'AppDir' in t])
+    miss = []
+    for inner in ('tempfile::TempDir', 'libcnb_test::app::AppDir'):
+        if not any(owns_deep(prog, t, inner) for t in tys):
+            miss.append('no local owns a %s' % inner.split('::')[-1])
+        for c in cb_calls:
+            normal, unwind = owned_across(prog, bi, c, inner)
+            if not normal or not unwind:
+                miss.append('no %s is released %s the test closure' % (inner.split('::')[-1], 'after' if not normal else 'when unwinding from'))
+    rep.check(bool(cb_calls) and not miss, 'R5', 'locals', w(bi), 'build_internal owns a TempDir (buildpacks) and an AppDir until the test closure has finished',
+              'temp dirs are not owned by build_internal across the test closure (%s); locals: %s' % ('; '.join(miss) or 'test closure call not found', [t for t in tys if 'Temp' in t or 'AppDir' in t]))
     ad = prog.adt('libcnb_test::app::AppDir')
     # AppDir owns the temporary copy: a field that holds a TempDir by value (directly, or as Option / Box of one — all drop
     # the directory with the AppDir), whatever the shape of the type (enum variant payload / struct field)
@@ -343,7 +365,7 @@ def run(ctx, rep):
         ok = False
     rep.check(ok, 'R5', 'copy_app', w(ca), 'the app copy is returned as the owning TempDir', 'copy_app does not return the owning TempDir')
     ds = prog.find_one(r"^libcnb_test::test_context::TestContext::<'_>::download_sbom_files$")
-    rep.check('tempfile::TempDir' in [l['ty'] for l in ds.locals], 'R5', 'sbom-dir', w(ds), 'SBOM download dir is an owned TempDir', 'SBOM download dir is not an owned TempDir')
+    rep.check(any(owns_deep(prog, l['ty'], 'tempfile::TempDir') for l in ds.locals), 'R5', 'sbom-dir', w(ds), 'SBOM download dir is an owned TempDir', 'SBOM download dir is not an owned TempDir')
     # ---- R6 --------------------------------------------------------------------------------------------
     import tomllib
     bad = []
@@ -478,6 +500,9 @@ def deepen(ctx, rep, env):
                    len(seq[i + 1][3]) >= 2 and seq[i + 1][3][-1] == '{%s}' % seq[i + 1][1] and str(seq[i + 1][3][-2]).endswith('name=')]
         ok = program == 'pack' and img_f is not None and len(cache_f) == 2 and len(set(cache_f)) == 2 and img_f not in cache_f and bool(env['packs'])
         why = 'argv: image field %s, cache volume fields %s' % (img_f, cache_f)
+        if disturbed(pm):
+            img_f, cache_f = None, []
+            why = 'the argument vector is modified after the words were collected: %s' % disturbed(pm)
         if img_f is None or not cache_f:
             # the conversion is spelled in a way the argv model does not read: undecided, not wrong
             rep.unproven('R2', 'resources/pack-command', w(cmds['libcnb_test::pack::PackBuildCommand']), 'argv conversion of PackBuildCommand not recognised (%s)' % why)
